@@ -11,6 +11,7 @@ checks = {
  "C08": ("exploration", "C01 histories over the choice profile (top-level, in lists, nested; multi-member cases; prefix-named non-members): per choice instance at most one case on the device and it is the one with the highest-precedence live contribution (choice-aware merge model).", "4 C08"),
  "C09": ("exploration", "Histories with verbatim re-submissions in every input form; the proto, JSON, JSON_IETF and 8 XML renderings of the same tree instance must be empty and both stores unchanged.", "4 C09"),
  "C07": ("fault_enumeration", "For a generated history and a chosen transaction, every collaborator call (target.Set, cache Read/ReadCh/GetKeys/Modify, schema GetSchema) is numbered in a counting pass; sampled (call, fault kind) pairs incl. torn writes, lost acks, short reads, device reject/unreachable/lost reply and fail-stop crash + restart over the same badger directory are injected one at a time in fresh worlds, the request is retried and the outcome compared with the fault-free reference run.", "4 C07"),
+ "C10": ("exploration", "On every Set of generated histories the direct device asks the same tree instance for proto, JSON, JSON_IETF and the 8 XML documents (change and full views); each is decoded by the harness's own schema-driven decoders, applied to a copy of the prior device state under its protocol's semantics and compared; XML well-formedness, namespace, key-order and operation clauses are checked per document.", "4 C10"),
  "C13": ("exploration", "Scripted device notifications (re-sync cycles, on-change updates/deletes, JSON blobs, state leaves) into the real Datastore.Sync with 1/2/16 write workers; every cache write of a sync worker parks in a decorator and the seeded scheduler chooses the completion order; CONFIG/STATE compared with a sequential running-mirror model at quiescence.", "4 C13"),
  "C18": ("fault_enumeration", "The real ncTarget.Set is driven around an in-process netconf.Driver with XML change documents captured from real trees; for both commit-datastore settings, the 8 option combinations and every failure point of the driver call sequence (with and without rpc-error warnings) - enumerated completely per document - the recorded call sequence and the fake device's candidate are judged.", "4 C18"),
  "C19": ("exploration", "Server.GetData/Subscribe/WatchDeviations run against fake server streams under the seeded scheduler; Send failures at every index, stalls, slow consumers and client cancellation at every tick; bounded return after the stream ends, no panic, no goroutine left at bubble end (synctest).", "4 C19"),
